@@ -2,7 +2,8 @@
 //@ append src/find/matchers/mod.rs
 //@ module verif_kani_files0
 //@ paste split src/find/matchers/mod.rs slice:fn:parse_files0_args@@let mut buffer_split: Vec<&\[u8\]> =@@<new_paths\.extend\(string_segments\);
-//@ harness e_files0_names kind=enum props=C18 bound=<<every -files0-from content of 0..=5 bytes over the alphabet NUL, newline, blank, '-', 'a' (3906 streams)>> label=<<the starting points taken from -files0-from are exactly the NUL-separated names in order; a final NUL adds no name; empty names are skipped and nothing else is (names made of blanks or newlines, or starting with '-', are kept as they are)>>
+//@ harness e_files0_names kind=enum props=C18 thorough_bound=<<every -files0-from content of 0..=7 bytes over the alphabet NUL, newline, blank, '-', 'a' (97656 streams)>> bound=<<every -files0-from content of 0..=5 bytes over the alphabet NUL, newline, blank, '-', 'a' (3906 streams)>> label=<<the starting points taken from -files0-from are exactly the NUL-separated names in order; a final NUL adds no name; empty names are skipped and nothing else is (names made of blanks or newlines, or starting with '-', are kept as they are)>>
+//@ harness e_files0_sources kind=enum props=C18 bound=<<the name list d2, d1, missing (NUL-separated, with and without a final NUL) given as a regular file and through a FIFO, against the same names as operands, on a real tree>> label=<<-files0-from FILE walks exactly the starting points that giving the names as operands walks, in the same order with the same exit status, whatever kind of file FILE is>>
 // The splitting statements of parse_files0_args (between reading the file and extending new_paths) are pasted verbatim from the
 // real source on every run; dropped: the File/stdin read before them and the `new_paths.extend` after them.
 #[cfg(verif_replay)]
@@ -13,7 +14,7 @@ mod verif_kani_files0 {
         string_segments
     }
     fn body() {
-        let n = pick(6);
+        let n = pick(if deep() { 8 } else { 6 });
         let mut buffer: Vec<u8> = Vec::new();
         for _ in 0..n { buffer.push([0u8, b'\n', b' ', b'-', b'a'][pick(5)]); }
         // the statement: NUL-separated names in order, empty ones skipped, a final NUL only terminates the last name
@@ -29,4 +30,37 @@ mod verif_kani_files0 {
         assert!(got_b == want, "starting points differ from the NUL-separated non-empty names");
     }
     #[test] fn e_files0_names() { kani::explore(body) }
+
+    fn sources_body() {
+        use crate::find::tests::FakeDependencies;
+        use std::io::Write;
+        let d = std::env::temp_dir().join(format!("verif-enum-files0-{}", std::process::id()));
+        let _ = std::fs::remove_dir_all(&d);
+        for n in ["d1", "d2"] { std::fs::create_dir_all(d.join(n)).unwrap(); std::fs::write(d.join(n).join("f"), "").unwrap(); }
+        let fifo = pick(2) == 1;
+        let final_nul = pick(2) == 1;
+        let names = [d.join("d2"), d.join("d1"), d.join("missing")];
+        let mut list: Vec<u8> = Vec::new();
+        for (i, n) in names.iter().enumerate() { list.extend_from_slice(n.to_str().unwrap().as_bytes()); if i + 1 < names.len() || final_nul { list.push(0); } }
+        let src = d.join("list");
+        let run = |args: &[&str]| { let deps = FakeDependencies::new(); let rc = crate::find::find_main(args, &deps); let out = deps.output.borrow().get_ref().clone(); (rc, out) };
+        let (rc_f, out_f) = if fifo {
+            let c = std::ffi::CString::new(src.to_str().unwrap()).unwrap();
+            assert!(unsafe { uucore::libc::mkfifo(c.as_ptr(), 0o600) } == 0);
+            let (p2, l2) = (src.clone(), list.clone());
+            let w = std::thread::spawn(move || { let mut f = std::fs::OpenOptions::new().write(true).open(p2).unwrap(); f.write_all(&l2).unwrap(); });
+            let r = run(&["find", "-files0-from", src.to_str().unwrap(), "-print0"]);
+            w.join().unwrap();
+            r
+        } else {
+            std::fs::write(&src, &list).unwrap();
+            run(&["find", "-files0-from", src.to_str().unwrap(), "-print0"])
+        };
+        let (rc_o, out_o) = run(&["find", names[0].to_str().unwrap(), names[1].to_str().unwrap(), names[2].to_str().unwrap(), "-print0"]);
+        let _ = std::fs::remove_dir_all(&d);
+        if out_f != out_o || (rc_f != 0) != (rc_o != 0) { eprintln!("  input -files0-from a {} ({} final NUL): printed {:?} (exit {rc_f}); as operands: {:?} (exit {rc_o})", if fifo { "FIFO" } else { "regular file" }, if final_nul { "with" } else { "without" }, String::from_utf8_lossy(&out_f), String::from_utf8_lossy(&out_o)); }
+        assert!(out_f == out_o, "-files0-from differs from giving the names as operands");
+        assert!((rc_f != 0) == (rc_o != 0), "exit status");
+    }
+    #[test] fn e_files0_sources() { kani::explore(sources_body) }
 }
